@@ -15,7 +15,7 @@ use std::time::Duration;
 
 pub static PROP: Prop = Prop {
     id: "C18",
-    rule: "cases: histories run in a fresh child process over 1-3 persistent threads: steps set_<kind>_descriptor([name,] marker) for the nine node kinds (unary, binary, postfix, ternary, function, reference, list, map, chain), names drawn from the operators, functions and references occurring in the case's ASTs and from names that do not, re-registrations with a new marker, the same spelling used for different kinds (`-` prefix and infix, `++`, a function and a reference both called foo); after EVERY step every AST of the case (1-3 programs from the flat generator, all nine node kinds, rendered fully parenthesised) is described on every thread. Oracle: a model registry (kind[, name]) -> marker; a marker descriptor renders <id:kind:name:child|child...>; nodes without registration render with the default (literal = expr(), op+rhs, lhs+op+rhs, lhs+op, c?a:b, name(a,b), name, [a,b], {k:v}, statements joined by `;`); the model's string must equal describe() after every step on every thread. Plus the exhaustive single-registration table: 9 kinds x {a name that occurs, a name that does not} against an AST containing all nine kinds. Non-trivial: >= 2 registrations of different kinds of which one shares its name with a node of another kind, or a re-registration, or >= 2 threads with a registration after the first describe; distinct by (registered (kind, name-class) sequence, thread count, AST kind multiset).",
+    rule: "cases: histories run in a fresh child process over 1-3 persistent threads: steps set_<kind>_descriptor([name,] marker) for the nine node kinds (unary, binary, postfix, ternary, function, reference, list, map, chain), names drawn from the operators, functions and references occurring in the case's ASTs and from names that do not, re-registrations with a new marker, the same spelling used for different kinds (`-` prefix and infix, `++`, a function and a reference both called foo); after EVERY step every AST of the case (1-3 programs from the flat generator, all nine node kinds, rendered fully parenthesised) is described on every thread. Oracle: a model registry (kind[, name]) -> marker; a marker descriptor renders <id:kind:name:child|child...> (one marker in seven renders as the empty string; every marker also reports a descriptor store that is locked while it runs); nodes without registration render with the default (literal = expr(), op+rhs, lhs+op+rhs, lhs+op, c?a:b, name(a,b), name, [a,b], {k:v}, statements joined by `;`); the model's string must equal describe() after every step on every thread. Plus the exhaustive single-registration table: 9 kinds x {a name that occurs, a name that does not} against an AST containing all nine kinds. Non-trivial: >= 2 registrations of different kinds of which one shares its name with a node of another kind, or a re-registration, or >= 2 threads with a registration after the first describe; distinct by (registered (kind, name-class) sequence, thread count, AST kind multiset).",
     assumptions: &[
         "registrations go through the cfg-guarded re-export of DescriptorManager (the module is private)",
         "the AST is obtained from the fully parenthesised rendering, so grouping does not depend on C02",
@@ -46,8 +46,21 @@ fn named(kind: &str) -> bool {
 
 type Registry = BTreeMap<(String, String), u32>;
 
+/// markers whose id is a multiple of 7 render as the empty string (a legitimate descriptor)
 fn marker(id: u32, kind: &str, name: &str, children: &[String]) -> String {
+    if id % 7 == 0 {
+        return String::new();
+    }
     format!("<{}:{}:{}:{}>", id, kind, name, children.join("|"))
+}
+
+/// engine-side marker: additionally reports a descriptor store that is locked while it runs
+fn live_marker(id: u32, kind: &str, name: &str, children: &[String]) -> String {
+    let free = expression_engine::verif_hooks::locks_free();
+    if !free[4] {
+        return format!("!descriptor-store-locked-while-{}-descriptor-runs", kind);
+    }
+    marker(id, kind, name, children)
 }
 
 /// what describe() must return for `r` under `reg`
@@ -137,15 +150,15 @@ fn register(kind: &str, name: &str, id: u32) {
     let mut m = DescriptorManager::new();
     let k = kind.to_string();
     match kind {
-        "unary" => m.set_unary_descriptor(name.to_string(), Arc::new(move |op, rhs| marker(id, &k, &op, &[rhs]))),
-        "binary" => m.set_binary_descriptor(name.to_string(), Arc::new(move |op, l, r| marker(id, &k, &op, &[l, r]))),
-        "postfix" => m.set_postfix_descriptor(name.to_string(), Arc::new(move |lhs, op| marker(id, &k, &op, &[lhs]))),
-        "ternary" => m.set_ternary_descriptor(Arc::new(move |c, a, b| marker(id, &k, "", &[c, a, b]))),
-        "function" => m.set_function_descriptor(name.to_string(), Arc::new(move |n, params| marker(id, &k, &n, &params))),
-        "reference" => m.set_reference_descriptor(name.to_string(), Arc::new(move |n| marker(id, &k, &n, &[]))),
-        "list" => m.set_list_descriptor(Arc::new(move |items| marker(id, &k, "", &items))),
-        "map" => m.set_map_descriptor(Arc::new(move |pairs| marker(id, &k, "", &pairs.iter().map(|(a, b)| format!("{}=>{}", a, b)).collect::<Vec<_>>()))),
-        _ => m.set_chain_descriptor(Arc::new(move |items| marker(id, &k, "", &items))),
+        "unary" => m.set_unary_descriptor(name.to_string(), Arc::new(move |op, rhs| live_marker(id, &k, &op, &[rhs]))),
+        "binary" => m.set_binary_descriptor(name.to_string(), Arc::new(move |op, l, r| live_marker(id, &k, &op, &[l, r]))),
+        "postfix" => m.set_postfix_descriptor(name.to_string(), Arc::new(move |lhs, op| live_marker(id, &k, &op, &[lhs]))),
+        "ternary" => m.set_ternary_descriptor(Arc::new(move |c, a, b| live_marker(id, &k, "", &[c, a, b]))),
+        "function" => m.set_function_descriptor(name.to_string(), Arc::new(move |n, params| live_marker(id, &k, &n, &params))),
+        "reference" => m.set_reference_descriptor(name.to_string(), Arc::new(move |n| live_marker(id, &k, &n, &[]))),
+        "list" => m.set_list_descriptor(Arc::new(move |items| live_marker(id, &k, "", &items))),
+        "map" => m.set_map_descriptor(Arc::new(move |pairs| live_marker(id, &k, "", &pairs.iter().map(|(a, b)| format!("{}=>{}", a, b)).collect::<Vec<_>>()))),
+        _ => m.set_chain_descriptor(Arc::new(move |items| live_marker(id, &k, "", &items))),
     }
 }
 
@@ -294,6 +307,8 @@ fn run_history(trees: &[R], steps: &[(String, String, u32, usize)], nthreads: us
                     let last = if round > 0 { format!("{:?}", &steps[round - 1]) } else { "initial state".into() };
                     let sig = if got.starts_with("PANIC") {
                         "panic".to_string()
+                    } else if got.contains("!descriptor-store-locked") {
+                        "lock-held:descriptor-store".to_string()
                     } else if round > 0 {
                         let (k, _, _, th) = &steps[round - 1];
                         if *th != t && nthreads > 1 && doc["rounds"][round][*th][ai].as_str() == Some(want.as_str()) {
@@ -394,7 +409,8 @@ fn fixed(env: &Env, st: &mut Stats) -> CaseResult {
             }
             st.hist("single-registration-table");
             st.nontrivial(&format!("table:{}:{}", kind, name));
-            run_history(&[tree.clone(), empty.clone()], &[(kind.to_string(), name.to_string(), 7, 0)], 1, env, st)?;
+            run_history(&[tree.clone(), empty.clone()], &[(kind.to_string(), name.to_string(), 8, 0)], 1, env, st)?;
+            run_history(&[tree.clone(), empty.clone()], &[(kind.to_string(), name.to_string(), 14, 0)], 1, env, st)?;
         }
     }
     st.set_extra("exhaustive_single_registration_table", json!(true));
